@@ -493,6 +493,12 @@ func BaseStubs() map[string]StubFn {
 	st["path.Base"] = pure(path.Base, nil)
 	st["path.Dir"] = pure(path.Dir, nil)
 
+	st["internal/bytealg.CountString"] = func(r *Run, fr *frame, fn *ssa.Function, a []value) value {
+		if anySym(a) {
+			panic(unsupported("internal/bytealg.CountString on symbolic string"))
+		}
+		return strings.Count(a[0].(string), string([]byte{a[1].(byte)}))
+	}
 	st["internal/bytealg.IndexByteString"] = func(r *Run, fr *frame, fn *ssa.Function, a []value) value {
 		if !anySym(a) {
 			return strings.IndexByte(a[0].(string), a[1].(byte))
